@@ -8,10 +8,9 @@ from layers.fvm1d import layer_rhs1d, layer_mesh1d
 MODULE = 'Flowdyn.Props.C14'
 THEOREMS = core.theorems_in(['C14a.lean'], 'Flowdyn.C14') + ['Flowdyn.rhs_periodic_uniform_eq_cyc', 'Flowdyn.rhsCyc_shift', 'Flowdyn.rhsCyc_congr', 'Flowdyn.C15.rhs_shift_x', 'Flowdyn.C15.rhs_shift_y']
 AUDIT_IMPORTS = ['Flowdyn.Lemmas.Cyclic1D', 'Flowdyn.Props.C15']
-AUDIT_IMPORTS = AUDIT_IMPORTS + ['Flowdyn.Props.C07c', 'Flowdyn.Props.C14b']
-THEOREMS = THEOREMS + core.theorems_in(['C14b.lean'], 'Flowdyn.C14') + ['Flowdyn.C07.run_equivariant', 'Flowdyn.C07.run_equivariant_results', 'Flowdyn.C07.run_equivariant_final']
-PARTIAL = {"integrators": "whole solves of every explicit integrator (any Butcher table, low-storage list, explicit, rk2; global or local time step) on cyclically shifted data are the shifted solves: same stop flag, iteration counts, times, iteration tags, monitor logs, and cell-wise shifted data in the final field, every snapshot and every trajectory state (C14b.solve_shift*, through the driver morphism theorem C07c.run_equivariant); the implicit family is covered for affine operators at step level (C06b.thetaStep_equivariant_affine) and by the sweep",
-           "2D solves": "the 2D operator is shift-equivariant (C15.rhs_shift_x/y); its lift to solves is the same generic theorem (C14b.solve_equivariant_rk) but is not instantiated"}
+AUDIT_IMPORTS = AUDIT_IMPORTS + ['Flowdyn.Props.C07c', 'Flowdyn.Props.C14b', 'Flowdyn.Props.C14c']
+THEOREMS = THEOREMS + [t for t in core.theorems_in(['C14b.lean', 'C14c.lean'], 'Flowdyn.C14') if '.ExB.' not in t and '.ExA.' not in t] + ['Flowdyn.C07.run_equivariant', 'Flowdyn.C07.run_equivariant_results', 'Flowdyn.C07.run_equivariant_final']
+PARTIAL = {"systems with implicit integrators": "whole solves on shifted data are the shifted solves for every explicit integrator in 1D (C14b) and in 2D (x, y and both; global or local time step: C14c.solve_shift_2d*, solve_shift_x*, solve_shift_y*), and for the implicit family (implicit, cranknicolson, gear incl. its memory and restart) on scalar models: affine operators with any commuting linear map, and ANY nonlinear operator under signed permutations of the unknowns because the finite-difference Jacobian is exactly equivariant (C14c.solve_theta_shift*, solve_gear_shift*, *_perVec for the model's scalar pipeline, limiters included), under the solver hypotheses of C06b at the visited states; not written: the flattening of systems of equations (Euler, shallow water) onto the vector of unknowns of the implicit model, and implicit integrators in 2D - checked by the sweep"}
 LEVEL_NOTE = "1D: refinement of the periodic uniform pipeline to a cyclic (seam-free) pipeline for every n>=1, hence shift-equivariance for any reconstruction, cons2prim and pointwise flux"
 
 
